@@ -873,3 +873,21 @@ M('C03', 'refactor3-validate-signers-try_fold', AUTH, _VSLOOP, _VSFOLD, equiv=Tr
 M('C03', 'validate-signers-try_fold-wrapping', AUTH, _VSLOOP, _VSFOLD.replace("""        total_weight
             .checked_add(signer.weight)
             .ok_or(ContractError::WeightOverflow)""", """        Ok(total_weight.wrapping_add(signer.weight))"""), 'C03.R1')
+M('C02', 'rf-gwmsg4-consume-any-approved', GW, '            MessageApprovalValue::Approved(hash) if hash == expected_hash => {', '            MessageApprovalValue::Approved(_) => {', 'C02.R3', base='gwmsg-4')
+M('C02', 'rf-gwmsg4-reapprove-approved', GW, '            if let MessageApprovalValue::NotApproved =\n', '            if let MessageApprovalValue::Approved(_) =\n', 'C02.R2', base='gwmsg-4')
+M('C02', 'rf-gwmsg4-query-ignores-hash', GW, 'matches!(message_approval, MessageApprovalValue::Approved(hash) if hash == expected_hash)', 'matches!(message_approval, MessageApprovalValue::Approved(_))', 'C02.R4', base='gwmsg-4')
+M('C16', 'rf-gwmsg4-consume-any-approved-c16', GW, '            MessageApprovalValue::Approved(hash) if hash == expected_hash => {', '            MessageApprovalValue::Approved(_) => {', 'C16.R4', base='gwmsg-4')
+M('C01', 'rf-gwauth6-bad-signatures-accepted', AUTH, '        .then_some(is_latest_signers)\n        .ok_or(ContractError::InvalidSignatures)', '        .then_some(is_latest_signers)\n        .or(Some(is_latest_signers))\n        .ok_or(ContractError::InvalidSignatures)', 'C01', base='gwauth-6')
+M('C12', 'rf-token5-negative-amount-ok', TOK, '        Self::require(env, amount >= 0, ContractError::InvalidAmount);', '        Self::require(env, amount >= i128::MIN, ContractError::InvalidAmount);', 'C12.R1', base='token-5')
+M('C12', 'rf-token5-require-inverted', TOK, '        if !condition {\n            panic_with_error!(env, error);', '        if condition {\n            panic_with_error!(env, error);', 'C12', base='token-5')
+M('C12', 'rf-token5-expiry-exclusive', TOK, '            Some(expired) if expired.expiration_ledger < env.ledger().sequence() => {', '            Some(expired) if expired.expiration_ledger <= env.ledger().sequence() => {', 'C12.R5', base='token-5')
+M('C12', 'rf-token5-approve-past-expiry-ok', TOK, '            !(grants_spending && expiration_ledger < env.ledger().sequence()),', '            !(grants_spending && expiration_ledger > env.ledger().sequence()),', 'C12.R5', base='token-5')
+M('C12', 'rf-token5-insufficient-allowance-ok', TOK, '            allowance.amount >= amount,\n            ContractError::InsufficientAllowance,', '            allowance.amount >= 0,\n            ContractError::InsufficientAllowance,', None, base='token-5')
+M('C12', 'rf-token5-insufficient-balance-ok', TOK, '        Self::require(env, balance >= amount, ContractError::InsufficientBalance);', '        Self::require(env, balance >= 0, ContractError::InsufficientBalance);', 'C12.R2', base='token-5')
+M('C12', 'rf-token5-default-allowance-100', TOK, '    const NO_ALLOWANCE: AllowanceValue = AllowanceValue {\n        amount: 0,', '    const NO_ALLOWANCE: AllowanceValue = AllowanceValue {\n        amount: 100,', 'C12.R5', base='token-5')
+M('C10', 'rf-abi4-any-byte-zero', ABI, '.iter().all(|&byte| byte == 0)', '.iter().any(|&byte| byte == 0)', 'C10.R5', base='abi-4')
+M('C10', 'rf-abi4-high-half-skips-a-byte', ABI, 'slice[I128_SIZE..].iter()', 'slice[I128_SIZE + 1..].iter()', 'C10.R5', base='abi-4')
+M('C10', 'rf-abi4-negative-accepted', ABI, '.filter(|amount| !amount.is_negative())', '.filter(|amount| amount.is_negative())', 'C10.R5', base='abi-4')
+M('C10', 'rf-abi4-high-half-unchecked', ABI, '    ensure!(upper_half_is_zero, ContractError::InvalidAmount);', '    let _ = upper_half_is_zero;', 'C10.R5', base='abi-4')
+M('C10', 'rf-abi4-one-byte-is-none', ABI, '        [] => None,', '        [_] => None,', 'C10.R8', base='abi-4')
+M('C10', 'rf-abi4-all-nonzero-continues', ABI, '.iter().all(|&byte| byte == 0)', '.iter().all(|&byte| byte == 0 || byte == 1)', 'C10.R5', base='abi-4')
